@@ -15,6 +15,7 @@ def quiet():
 
 HERE = os.path.dirname(os.path.abspath(__file__))
 ROOT = os.path.dirname(HERE)
+OUTDIR = os.environ.get("VERIF_OUT_DIR") or os.path.join(ROOT, "out")
 
 
 class Units(dict):
